@@ -160,6 +160,44 @@ pub fn list_run_tests(root: &Path) -> Vec<RunTest> {
     out
 }
 
+/// Package directories of should_pass tests of category `run` or `compile` (scripts, contracts,
+/// predicates, libraries) that use the default experimental settings and have no contract
+/// dependencies: (name, dir, is_contract). Sorted by name, contracts first.
+pub fn list_buildable_tests(root: &Path) -> Vec<(String, PathBuf, bool)> {
+    let mut out = vec![];
+    let sp = root.join("test_programs/should_pass");
+    for entry in walkdir::WalkDir::new(&sp).into_iter().filter_map(|e| e.ok()) {
+        if entry.file_name() != "test.toml" {
+            continue;
+        }
+        let Ok(text) = std::fs::read_to_string(entry.path()) else { continue };
+        let Ok(t) = text.parse::<toml::Value>() else { continue };
+        if t.get("experimental").is_some() {
+            continue;
+        }
+        let cat = t.get("category_new_encoding").or_else(|| t.get("category")).and_then(|c| c.as_str()).unwrap_or("");
+        if cat != "run" && cat != "compile" {
+            continue;
+        }
+        if let Some(targets) = t.get("supported_targets").and_then(|v| v.as_array()) {
+            if !targets.iter().any(|x| x.as_str() == Some("fuel")) {
+                continue;
+            }
+        }
+        let dir = entry.path().parent().unwrap().to_path_buf();
+        let manifest = std::fs::read_to_string(dir.join("Forc.toml")).unwrap_or_default();
+        if manifest.is_empty() || manifest.contains("contract-dependencies") || manifest.contains("[workspace]") {
+            continue;
+        }
+        let main = std::fs::read_to_string(dir.join("src/main.sw")).unwrap_or_default();
+        let is_contract = main.trim_start().starts_with("contract;");
+        let name = dir.strip_prefix(root.join("test_programs")).unwrap().to_string_lossy().to_string();
+        out.push((name, dir, is_contract));
+    }
+    out.sort_by(|a, b| (!a.2, &a.0).cmp(&(!b.2, &b.0)));
+    out
+}
+
 /// Deterministic slice of the corpus for (seed, shard): tests are dealt round-robin over the
 /// shards after a seed-dependent rotation.
 pub fn slice_for<T: Clone>(all: &[T], seed: u64, shard: u64, nshards: u64) -> Vec<T> {
